@@ -125,6 +125,21 @@ def entries(seed, premade=None):
             reg(f'{nm}.{method}', mk_fit(fac, method), data, init, sal)
         reg(f'{nm}.fit[num_classes]',
             (lambda fac: lambda args: fac().fit(args[0], num_classes=2, iterations=2))(fac), data, seeded=True)
+    # non-default options together with a HARD (0/1) start: nothing may be written into the caller's start
+    hard = np.zeros_like(init)
+    hard[:, 0, ::2] = 1.0
+    hard[:, 1, 1::2] = 1.0
+    for nm, fac, data, extra in (
+            ('CACGMMTrainer', d.CACGMMTrainer, y, dict(affiliation_eps=1e-3)),
+            ('CBMMTrainer', d.CBMMTrainer, y, dict(affiliation_eps=1e-3)),
+            ('CWMMTrainer', d.CWMMTrainer, y, dict(weight_constant_axis=(-3,))),
+            ('GMMTrainer', d.GMMTrainer, yr, dict(covariance_type='diagonal')),
+            ('VMFMMTrainer', d.VMFMMTrainer, yr, dict(min_concentration=2.0, max_concentration=50.0))):
+        reg(f'{nm}.fit[hard start, options]', mk_fit(fac, 'fit', extra=extra), data, hard, sal)
+        reg(f'{nm}.fit_predict[hard start, options]', mk_fit(fac, 'fit_predict', extra=extra), data, hard, sal)
+    for nm, fac in (('GCACGMMTrainer', d.GCACGMMTrainer), ('VMFCACGMMTrainer', d.VMFCACGMMTrainer)):
+        reg(f'{nm}.fit[hard start, options]', mk_fit(fac, 'fit', integ=True, extra=dict(
+            affiliation_eps=1e-3, weight_constant_axis=(-3,), spatial_weight=0.5)), y, emb, hard, sal)
     reg('CACGMMTrainer.fit[mask]', mk_fit(d.CACGMMTrainer, 'fit', with_mask=True), y, init, sal, msk)
     reg('CACGMMTrainer.fit_predict[mask]', mk_fit(d.CACGMMTrainer, 'fit_predict', with_mask=True), y, init, sal, msk)
     reg('CACGMMTrainer.fit[trace]', mk_fit(d.CACGMMTrainer, 'fit', extra=dict(covariance_norm='trace')), y, init, sal)
